@@ -37,6 +37,9 @@ func drawRCase(t *rapid.T, o rOpts) rt.Case {
 			c.Cfg.CommitteeFailFirst = 1 << 30 // the committee source stays unavailable (and honours its context)
 		}
 	}
+	if n >= 5 && rapid.IntRange(0, 5).Draw(t, "absent?") == 0 {
+		c.Cfg.AbsentAt = uint64(rapid.IntRange(1, 3).Draw(t, "absent-at")) // membership change: the node sits out one height
+	}
 	if o.RealTimer {
 		c.Cfg.RealTimer = true
 		c.Cfg.BaseMs = rapid.IntRange(2, 12).Draw(t, "basems")
